@@ -325,8 +325,14 @@ def run(ctx):
             res["failures"].append(dict(payload, what="a target compiler lays an accepted struct out differently from what the compiler assumes"))
         all_emitted = all(v == 0 for r in (infos[k].get("emit_rc") or {"x": {"y": 1}}).values() for v in r.values())
         if acc0 and all_emitted and any(("on emitted" in n or "rustc on emitted" in n) for n in infos[k]["notes"]):
-            res["failures"].append(dict(payload, what="the types emitted for an accepted file set do not compile, so their layout cannot be the assumed one: %s"
-                                                      % [n for n in infos[k]["notes"] if "emitted" in n][0][:300]))
+            note_ = [n for n in infos[k]["notes"] if "emitted" in n][0]
+            f_ = dict(payload, what="the types emitted for an accepted file set do not compile, so their layout cannot be the assumed one: %s" % note_[:300])
+            # (the Rust module of a file in which a small object-bearing struct is bundled with another small
+            # parameter does not compile - the bundle derives Copy for a field that is not Copy; that is the method
+            # code, not a struct definition, and the C and C++ probes of the same structs are taken)
+            if "rustc on emitted" in note_ and re.search(r"let mut b[io] = B[IO]\(", note_) and "does not implement the `Copy` trait" in note_:
+                f_["known_class"] = "K_small_obj_struct_bundled"
+            res["failures"].append(f_)
         if len(fl) > 7 and fl[7] > 0:
             res["failures"].append(dict(payload, what="a verified struct used as a parameter has a different size in the target compilers than the size used for marshalling"))
         if len(fl) > 8 and fl[8] > 0:
